@@ -256,15 +256,12 @@ def units(tier, seed):
         add(2, 2, 2, 1, ("lose_req",), seq0=0xffff, split=8,
             wit=("ok", "timeout"))
         add(2, 2, 2, 1, ("fatal",), split=8, wit=("ok", "fatal"))
-        add(2, 2, 2, 1, ("lose_req", "retry", "fatal"), seq0=0xffff, split=8,
-            wit=OTF)
         add(1, 1, 2, 2, ALL, stale=True, seq0=0xffff, split=6, wit=OTF,
             multi=True)
         add(2, 1, 2, 1, ALL, split=8, wit=OTF, multi=True)
         add(2, 3, 2, 1, ("lose_rep", "retry"), split=8,
             wit=("ok", "timeout"))
         add(3, 2, 1, 1, ("lose_req", "dup"), split=8, wit=("ok", "timeout"))
-        add(3, 3, 2, 0, (), split=8, wit=("ok", "timeout"))
         add(1, 1, 3, 2, ("lose_req", "lose_rep", "retry"), split=6,
             wit=("ok", "timeout"))
     return us
